@@ -86,7 +86,7 @@ def ext_cases(draw):
         if ch == 'n':
             args.append(gen_xpath.render(draw(gen_xpath.nodeset(1)), [' ']))
         elif ch == 'N':
-            args.append(draw(st.sampled_from(['0', '1', '3', '10', '2.5', '-2', '$n1', 'count(//*)'])))
+            args.append(draw(st.sampled_from(['0', '1', '3', '10', '2.5', '7', '100', 'count(//*)'])))  # str:padding is quadratic: small counts only
         elif ch == 's':
             args.append(draw(st.sampled_from(["'ab'", "'-'", "''", "'xyz'", '$s1', 'string(.)'])))
         elif ch == 'a':
@@ -140,6 +140,15 @@ def check(ctx, case):
         prep = Prepared(case)
     except ValueError:
         return None
+    if case.get('docform') == 'xerces' and 'ns_axis_native_only' in gen_xpath.FLAGS and re.search(r'namespace\s*::', case['expr']):
+        gen_xpath.COUNTS['ns_axis_native_only'] += 1
+        ctx.excluded['ns_axis_native_only'] += 1
+        case = dict(case, docform='native')
+        prep.case = case
+    if case.get('docform') == 'xerces' and '<!DOCTYPE' in case['xml'] and 'doctype_native_only' in gen_xpath.FLAGS:
+        ctx.excluded['doctype_native_only'] += 1
+        case = dict(case, docform='native')
+        prep.case = case
     if case.get('docform') == 'xerces' and '<![CDATA[' in case['xml']:
         case = dict(case, docform='native')
         prep.case = case
@@ -154,7 +163,7 @@ def check(ctx, case):
     if status == 'unspecified':
         ctx.counters['skipped:unspecified'] += 1
         return None
-    r = prep.call(ctx.drv, expr, only='gl')
+    r = prep.call(ctx, expr, only='gl')
     compiled = r.has('compile.ok')
     nontrivial = False
     if status == 'ok':
@@ -173,7 +182,22 @@ def check(ctx, case):
     ctx.note({'x': case['xml'], 'e': expr, 'c': case['ctx'], 'l': case.get('ctxlist')}, nontrivial, classes,
              sample_text={'expr': expr, 'xml': case['xml'][:300], 'ctx': prep.ctx.key, 'ref': status})
     if status == 'syntax':
-        if compiled:
+        # rejected = an error at compile time or when evaluated (e.g. '$', '/[1]' only fail in execute())
+        if compiled and not r.has('g.err'):
+            # known leniency of the tokenizer: whitespace inside '//' and inside QNames.  Identified precisely: the
+            # string becomes a valid expression when exactly that whitespace is removed.
+            relaxed = re.sub(r'/\s+/', '//', re.sub(r'/\s+/', '//', expr))
+            relaxed = re.sub(r'\s*(?<!:):(?!:)\s*', ':', relaxed)
+            relaxed = re.sub(r'\$\s+', '$', relaxed)
+            lenient = False
+            if relaxed != expr:
+                try:
+                    ref_xpath.parse(relaxed)
+                    lenient = True
+                except ref_xpath.XPathSyntaxError:
+                    pass
+            if lenient:
+                return {'what': 'accepts-non-expression', 'expr': expr, 'ref': 'lenient-whitespace', 'g.type': r.gets('g.type')}
             return {'what': 'accepts-non-expression', 'expr': expr, 'ref': ref, 'g.type': r.gets('g.type'), 'g.err': r.gets('g.err')}
         return None
     if status == 'static':
@@ -209,7 +233,7 @@ def signature(case, detail):
     if detail['what'] in ('accepts-non-expression', 'no-error-for-static-error'):
         # identified by the reference parser's complaint (position stripped), which does not change under shrinking
         msg = re.sub(r"\bat \d+.*$", '', str(detail.get('ref', '')))
-        msg = re.sub(r"'[^']*'|\d+", '_', msg).strip()
+        msg = re.sub(r"'\w[^']*'|\d+", '_', msg).strip()   # keep punctuation tokens, drop names / numbers
         return '%s|%s' % (detail['what'], msg[:70])
     return '%s|%s' % (detail['what'], '+'.join(detail.get('feats', [])) if 'feats' in detail else _shape(detail.get('expr', '')))
 
